@@ -21,7 +21,8 @@
 // Output: H <id> <r>;<r>;...   one result per op:
 //   <status>:<fnv64 of output>:<output length>:<fnv64 of getLastError()>:<residue>
 //   status "." for void calls; residue = "-" (every reported member equals a new transformer's),
-//   "?" (hook not compiled in) or "name=value,..." (members that differ from a new transformer).
+//   "?" (hook not compiled in) or "name=value,..." (members that differ from a new transformer; the
+//   caller decides which of them are sticky by documentation).
 // With API_VERBOSE=1 the output bytes and the error text follow on '#' lines.
 #include "common.hpp"
 #include <map>
@@ -128,16 +129,12 @@ static void report(const XalanTransformer& t, Sizes& out)
 #endif
 }
 
-// members of the transformer itself are sticky by documentation: not part of the residue
-static bool sticky(const char* name) { return std::strncmp(name, "XalanTransformer::", 18) == 0; }
-
 static std::string residue(const XalanTransformer& t, const Sizes& base)
 {
 #if HOOK
     Sizes now; report(t, now);
     std::string r;
     for (size_t i = 0; i < now.size() && i < base.size(); ++i) {
-        if (sticky(now[i].first)) continue;
         if (now[i].second != base[i].second) {
             char buf[32]; std::snprintf(buf, sizeof buf, "=%lu", now[i].second);
             if (!r.empty()) r += ",";
@@ -159,6 +156,8 @@ int main(int argc, char** argv)
     std::ifstream f;
     if (argc > 1) { f.open(argv[1]); in = &f; }
     const bool verbose = getenv("API_VERBOSE") != 0;
+    // the parser liaison's default error handler writes "Fatal Error: ..." to stderr
+    if (!verbose) { if (!std::freopen("/dev/null", "w", stderr)) { /* keep stderr */ } }
     if (argc > 2 && std::string(argv[2]) == "--members") {
         XalanTransformer t; Sizes b; report(t, b);
         for (size_t i = 0; i < b.size(); ++i) std::cout << "M " << b[i].first << " " << b[i].second << "\n";
